@@ -182,7 +182,7 @@ Example c21_nonvacuous :
   (exists bs, write_module example_module = Ok bs /\ List.length bs = 229%nat /\
               read_module 40 bs = Ok example_module) /\
   args_ok "br_table" [ARefs [("label", 3)]] = true /\
-  (List.length (filter (fun op => match assoc String.eqb operands op with
+  Nat.leb 400 (List.length (filter (fun op => match assoc String.eqb operands op with
                                  | Some ks => forallb (fun k => wf_arg (0, None) k
                                      match k with KBrTable => ARefs [("label", 0)] | KResultTypes => AStrs []
                                      | KType => AStr "i32" | KF32 => AFloat [0; 0; 0; 0]
@@ -191,10 +191,10 @@ Example c21_nonvacuous :
                                      | KGlobalIdx => ARef "global" 0 | KFuncIdx => ARef "func" 0
                                      | KTypeIdx => ARef "type" 0 | KTableIdx => ARef "table" 0
                                      | _ => AInt 0 end) ks
-                                 | None => false end) (map fst opcodes)) >= 400)%nat.
+                                 | None => false end) (map fst opcodes))) = true.
 Proof.
   split; [vm_compute; reflexivity|]. split; [vm_compute; reflexivity|].
-  split; [|split; [vm_compute; reflexivity|vm_compute; lia]].
+  split; [|split; vm_compute; reflexivity].
   destruct (write_module example_module) as [bs| | |] eqn:E; try (vm_compute in E; discriminate E).
   exists bs. split; [reflexivity|]. split.
   - vm_compute in E. injection E as <-. reflexivity.
